@@ -158,19 +158,52 @@ func ruleR12d(h *H) {
 			read = c
 		}
 	})
-	if read == nil {
-		h.Anchor(rule, "the read of the current entry in "+ir.FuncName(fn))
-		return
-	}
 	var seV, errV ssa.Value
-	for _, r := range *read.Referrers() {
-		if ex, ok := r.(*ssa.Extract); ok {
-			if ex.Index == 0 {
-				seV = ex
-			} else {
-				errV = ex
+	if read != nil {
+		for _, r := range *read.Referrers() {
+			if ex, ok := r.(*ssa.Extract); ok {
+				if ex.Index == 0 {
+					seV = ex
+				} else {
+					errV = ex
+				}
 			}
 		}
+	} else {
+		// the read is written out in the check itself (batch.Get + deserialisation): it must
+		// at least go through the request's batch
+		if reaches, _ := h.P.StaticReaches(fn, h.P.MatchPred(ir.Callee{Pkg: "server/kv", Recv: "WriteBatch", Name: "Get"})); !reaches {
+			h.Anchor(rule, "the read of the current entry in "+ir.FuncName(fn))
+			return
+		}
+	}
+	// the outcome of the read as one abstract atom: any error value produced while reading
+	// (not a sentinel, not nil) is "the read error"; any non-nil entry is "the entry read"
+	isReadErr := func(v ssa.Value) bool {
+		if errV != nil {
+			return v == errV
+		}
+		if !ir.IsError(v.Type()) {
+			return false
+		}
+		if _, isC := v.(*ssa.Const); isC {
+			return false
+		}
+		if u, ok := v.(*ssa.UnOp); ok {
+			if _, isG := u.X.(*ssa.Global); isG {
+				return false
+			}
+		}
+		return true
+	}
+	isEntry := func(v ssa.Value) bool {
+		if seV != nil {
+			return v == seV
+		}
+		if _, isC := v.(*ssa.Const); isC {
+			return false
+		}
+		return ir.TypeIs(v.Type(), "proto", "StorageEntry")
 	}
 	cls := func(v ssa.Value, path []*ssa.BasicBlock) string {
 		v = ir.PhiAlong(v, path)
@@ -184,7 +217,7 @@ func ruleR12d(h *H) {
 		}
 		cv := ir.Canon(v)
 		switch {
-		case cv == errV:
+		case isReadErr(cv):
 			return "err"
 		case cv == ssa.Value(exp):
 			return "exp"
@@ -274,11 +307,11 @@ func ruleR12d(h *H) {
 		switch {
 		case isNilConst(r1) && isNilConst(r0):
 			got = "ok:none"
-		case isNilConst(r1) && ir.Canon(r0) == seV:
+		case isNilConst(r1) && isEntry(ir.Canon(r0)):
 			got = "ok:entry"
 		case isGlobalLoad(r1, "ErrBadVersionId"):
 			got = "error:badversion"
-		case ir.Canon(r1) == errV:
+		case isReadErr(ir.Canon(r1)):
 			got = "error:other"
 		default:
 			got = "other(" + ir.Describe(r0) + ", " + ir.Describe(r1) + ")"
